@@ -1,5 +1,6 @@
 """C12 - table cells are split/unescaped as documented; tables are rectangular."""
 from . import line_rules as lr, builder_rules as br, matcher_rules as mr
+from . import misc_rules as ms
 
 META = {
     "level": "other",
@@ -21,3 +22,5 @@ def run(rep):
     mr.rule_token_table(rep, "C12.row", "C12.rowcol")
     # a row reaches the splitter as one physical line: lines end at line feeds only
     lr.rule_scanner(rep, "C12.line", "C12.scan")
+    # no hidden state: what the property promises for one use must hold for every later use as well
+    ms.rule_stateless(rep, "C12")
